@@ -95,6 +95,12 @@ def _events(scn):
             s = list(base_s)
             s[1] = kind
             window(s, [0, 3, 0, 0], 'kind=%d' % kind, 'kind', kind)
+        # raw sockets of both IP families with every protocol number
+        for fam in (2, 30):
+            for proto in list(range(0, 140)) + [255, 256, 262]:
+                s = list(base_s)
+                s[0], s[1], s[2] = fam, 3, proto
+                window(s, [0, 3, 0, 0], 'family=%d raw protocol=%d' % (fam, proto), 'proto', proto)
     elif hf == 'sockopt':
         for level in (0, 1, 6, 7, 0xfff, 0xffff):
             for opt in (1, 4, 8, 0x1001, 0x1002, 0x2000, 0, 3, 0x1121, 0x7777):      # (the last four: options nobody names)
